@@ -8,6 +8,7 @@
  **********************************************************************/
 
 #include <cstdlib>
+#include <limits>
 #include <GeographicLib/Utility.hpp>
 
 #if defined(_MSC_VER)
@@ -72,6 +73,12 @@ namespace GeographicLib {
   }
 
   int Utility::day(int y, int m, int d, bool check) {
+    // Ensure that the integer arithmetic in day(y, m, d) and day(y + 1) can't
+    // overflow
+    if (check && !(y > 0 && y < (numeric_limits<int>::max() - 1231) / 10000 &&
+                   m > 0 && m <= 12 && d > 0 && d <= 31))
+      throw GeographicErr("Invalid date " +
+                          str(y) + "-" + str(m) + "-" + str(d));
     int s = day(y, m, d);
     if (!check)
       return s;
